@@ -24,6 +24,19 @@ suite (level_note of C10).  An empty version file is reported as `null` (`cfgVer
 unchanged code dies in `int('')` (ValueError), i.e. the code fails closed until somebody rewrites the file (`forgeCfgVer` /
 `forgeJsVer`).
 
+Failed write (`{"k": "failWrite", "op": <api op>, "after": k}`): the (k+1)-th file write of the call raises OSError(EDQUOT) - a
+NON-FATAL failure: the exception passes through `_do_action_under_lock_internal` (lock released, deadlock marker re-created) to
+the caller, and the SAME handle is used afterwards (like after an update that raises KeyError for an unknown job name or trips
+an assertion: `bad_update` in clustergen).  Then other handles change the state and the handle that failed writes again.
+
+Stalled call (`{"k": "stallBegin", "h": h, "op": <api op>, "after": k}` … `{"k": "stallEnd", "h": h}`): the real call runs in a
+worker thread (harness/coop.py Scheduler) up to its (k+1)-th file write and PARKS there: a live process inside its lock section
+(a hung write on the shared filesystem), its lock marker present - created, like every marker of `MarkerLock`, with an mtime one
+hour in the past.  Meanwhile the other handles act: every call that takes the lock must time out and change nothing (oracles
+`lock.broken_while_held`, `lock.two_in_section`, `lock.wrote_while_held`, `lock.not_excluded`); nothing is invoked through the
+slot of the parked process (`busy`); `breakMarker` is refused (the marker of a live holder is not stale).  `stallEnd` lets the
+call finish.
+
 After EVERY operation the result/exception enum and the parsed content of cluster_config.json, config_version.txt,
 job_status.json, job_status_version.txt (+ `.bk` files, + the lock marker) are compared with the Lean driver.
 """
